@@ -177,6 +177,8 @@ type verifWorld struct {
 	hiddenAtStart map[int64]bool // ... and those whose file was away when the host was last started
 	regKeys       int
 	budgets       map[int]*accounts.Budget
+	budgetAcct    map[int]int // open budget -> index of its account in accts
+	shared        bool        // accts4[i] is the same public key as accts[i]: one row of the accounts table behind both interfaces
 	nextBud       int
 	setValue      uint64
 	noFaults      bool // directed cases: no injected faults
@@ -444,6 +446,38 @@ func (w *verifWorld) observe() {
 		w.step("Broadcast "+verifScopeTerm(sc), "ODeliver "+w.pathIDs(got[sc]))
 	}
 	w.em.Count("op:Observe")
+	w.checkIdleAccounts()
+}
+
+// busyAcct: an RHP3 budget is open on account i
+func (w *verifWorld) busyAcct(i int) bool {
+	for _, a := range w.budgetAcct {
+		if a == i {
+			return true
+		}
+	}
+	return false
+}
+
+// checkIdleAccounts: the account manager keeps a balance in memory only while a budget of that
+// account is open; for every other account what it reports is the row of the accounts table
+// (which RHP4 credits and debits of the same key write directly).  Accounts with an open budget
+// are left out: their in-memory view is outside the property's statement (no budget at the stop).
+func (w *verifWorld) checkIdleAccounts() {
+	for i, a := range w.accts {
+		if w.busyAcct(i) {
+			continue
+		}
+		mb, err1 := w.n.accounts.Balance(a)
+		sb, err2 := w.n.store.AccountBalance(a)
+		if err1 != nil || err2 != nil {
+			continue
+		}
+		if !mb.Equals(sb) {
+			w.em.Monitor("idle-account-balance-differs-from-store", fmt.Sprintf("account #%d (no budget open; RHP3 and RHP4 share the key: %v): AccountManager.Balance reports %s, the accounts table holds %s — the next start would report the table's value", i, w.shared, mb.ExactString(), sb.ExactString()))
+		}
+		w.em.Count("idle account compared with the store")
+	}
 }
 
 // filesChanged: the volumes whose data file opens now but did not at the last start, or
@@ -541,6 +575,7 @@ func (w *verifWorld) restart(abrupt bool) (map[string]string, map[string]string)
 	after := w.snapshot(w.n)
 	afterD := w.deliveries(w.n)
 	w.budgets = map[int]*accounts.Budget{}
+	w.budgetAcct = map[int]int{}
 	pinFailed := w.pinFailed
 	w.pinFailed = false
 	var keys []string
@@ -1153,7 +1188,9 @@ func (w *verifWorld) pinUpdate(invert bool) {
 	w.em.Count("op:PinUpdate")
 }
 
-func (w *verifWorld) credit() {
+func (w *verifWorld) credit() { w.creditTo(-1) }
+
+func (w *verifWorld) creditTo(ai int) {
 	var c *verifContract
 	for _, x := range w.cs {
 		if !x.v2 && !x.renewed {
@@ -1164,7 +1201,9 @@ func (w *verifWorld) credit() {
 	if c == nil {
 		return
 	}
-	ai := w.rng.Intn(len(w.accts))
+	if ai < 0 {
+		ai = w.rng.Intn(len(w.accts))
+	}
 	amt := uint64(1000 + w.rng.Intn(5000))
 	rev := c.rev
 	rev.Revision.RevisionNumber++
@@ -1195,6 +1234,7 @@ func (w *verifWorld) budgetOp() {
 		w.nextBud++
 		if err == nil {
 			w.budgets[id] = b
+			w.budgetAcct[id] = ai
 		}
 		w.step(fmt.Sprintf("OpenBudget %d%%N %d%%N %d%%N", id, ai, amt), "ODone "+coqBool(err == nil))
 		w.em.Count(fmt.Sprintf("op:OpenBudget ok=%v", err == nil))
@@ -1204,7 +1244,14 @@ func (w *verifWorld) budgetOp() {
 }
 
 func (w *verifWorld) closeBudget() {
-	for id, b := range w.budgets {
+	// the open budget with the smallest id (not map order: a case must replay the same way)
+	ids := make([]int, 0, len(w.budgets))
+	for id := range w.budgets {
+		ids = append(ids, id)
+	}
+	sort.Ints(ids)
+	for _, id := range ids {
+		b, ai, committed := w.budgets[id], w.budgetAcct[id], false
 		if w.rng.Intn(3) == 0 {
 			b.Rollback()
 			w.step(fmt.Sprintf("RollbackBudget %d%%N", id), "ODone true")
@@ -1229,11 +1276,98 @@ func (w *verifWorld) closeBudget() {
 			} else {
 				w.step(fmt.Sprintf("CommitBudget %d%%N %d%%N", id, spend), "ODone "+coqBool(err == nil))
 				w.em.Count(fmt.Sprintf("op:CommitBudget ok=%v", err == nil))
+				committed = err == nil
 			}
 		}
 		delete(w.budgets, id)
+		delete(w.budgetAcct, id)
+		if committed && w.shared && !w.busyAcct(ai) && w.rng.Intn(2) == 0 {
+			// the last open budget of the account has just been committed: the same key is used through RHP4 next
+			w.em.Count("RHP4 operation right after the last RHP3 budget of the same key was committed")
+			w.rhp4Op(ai)
+		}
 		return
 	}
+}
+
+// ---- RHP4 credits and debits: contracts.Manager hands them to the store, the account manager
+// never sees them.  When the two protocols share keys (w.shared) account i of RHP4 is account i
+// of RHP3 — the same row of the accounts table —, otherwise it is a key of its own (model
+// accounts 2 and 3).  They are only issued for a key with no open RHP3 budget: while a budget is
+// open the in-memory view of that account is outside what C18 states (and is recorded under C04).
+func (w *verifWorld) acct4Term(i int) int {
+	if w.shared {
+		return i
+	}
+	return len(w.accts) + i
+}
+
+func (w *verifWorld) idleAcct4() (int, bool) {
+	var l []int
+	for i := range w.accts4 {
+		if !w.shared || !w.busyAcct(i) {
+			l = append(l, i)
+		}
+	}
+	if len(l) == 0 {
+		return 0, false
+	}
+	return l[w.rng.Intn(len(l))], true
+}
+
+func (w *verifWorld) rhp4Op(ai int) {
+	if w.shared && w.busyAcct(ai) {
+		return
+	}
+	if w.rng.Intn(2) == 0 {
+		if w.credit4(ai) {
+			return
+		}
+	}
+	w.debit4(ai)
+}
+
+// credit4: CreditAccountsWithContract (RPCFundAccounts) through a live v2 contract
+func (w *verifWorld) credit4(ai int) bool {
+	c := w.pickLive(true)
+	if c == nil {
+		return false
+	}
+	amt := uint64(500 + w.rng.Intn(4000))
+	fc := c.fc
+	fc.RevisionNumber++
+	w.signV2(&fc)
+	w.maybeFault()
+	_, err := w.n.contracts.CreditAccountsWithContract([]proto4.AccountDeposit{{Account: w.accts4[ai], Amount: types.NewCurrency64(amt)}}, c.id, fc, proto4.Usage{AccountFunding: types.NewCurrency64(amt)})
+	fired := w.settle()
+	if err != nil {
+		w.failedOp("Credit4", fired)
+		return true
+	}
+	c.fc = fc
+	w.step(fmt.Sprintf("Credit4 %d%%N %d%%N", w.acct4Term(ai), amt), "ODone true")
+	w.em.Count(fmt.Sprintf("op:Credit4 shared-key=%v", w.shared))
+	return true
+}
+
+// debit4: DebitAccount (every paid RHP4 RPC); refused when the row holds less
+func (w *verifWorld) debit4(ai int) {
+	amt := uint64(1 + w.rng.Intn(3000))
+	if w.rng.Intn(4) == 0 {
+		// everything that is there (what the table says)
+		if b, err := w.n.store.RHP4AccountBalance(w.accts4[ai]); err == nil && !b.IsZero() && b.Big().IsUint64() {
+			amt = b.Big().Uint64()
+		}
+	}
+	w.maybeFault()
+	err := w.n.contracts.DebitAccount(w.accts4[ai], proto4.Usage{RPC: types.NewCurrency64(amt)})
+	fired := w.settle()
+	if err != nil && (fired || !errors.Is(err, proto4.ErrNotEnoughFunds)) {
+		w.failedOp("Debit4", fired)
+		return
+	}
+	w.step(fmt.Sprintf("Debit4 %d%%N %d%%N", w.acct4Term(ai), amt), "ODone "+coqBool(err == nil))
+	w.em.Count(fmt.Sprintf("op:Debit4 shared-key=%v accepted=%v", w.shared, err == nil))
 }
 
 func (w *verifWorld) regPut() {
@@ -1477,7 +1611,7 @@ func verifSettingsRoundTrip(t *testing.T, em *verifEmitter, dir string) {
 	}
 }
 
-const verifC18Directed = 9
+const verifC18Directed = 10
 
 func TestVerifC18(t *testing.T) {
 	em := newVerifEmitter(t, "From HostdBase Require Import Base.\nFrom HostdRestart Require Import Model.", "case", "check")
@@ -1496,12 +1630,17 @@ func TestVerifC18(t *testing.T) {
 		cm, _ := verifNewChain(t, true)
 		w := &verifWorld{t: t, em: em, rng: rng, dir: dir, cm: cm, sink: sink,
 			hostKey: verifKey(rng), renterKey: verifKey(rng), volPath: map[int64]string{}, budgets: map[int]*accounts.Budget{},
-			hidden: map[int64]bool{}, hiddenAtStart: map[int64]bool{},
+			hidden: map[int64]bool{}, hiddenAtStart: map[int64]bool{}, budgetAcct: map[int]int{},
 			data: map[types.Hash256]*[rhp2.SectorSize]byte{}}
+		// case 9 and every second generated history: one public key is used as rhp3.Account and as proto4.Account
+		w.shared = id == 9 || (id >= verifC18Directed && id%2 == 0)
 		w.uc = types.UnlockConditions{PublicKeys: []types.UnlockKey{w.renterKey.PublicKey().UnlockKey(), w.hostKey.PublicKey().UnlockKey()}, SignaturesRequired: 2}
 		for i := 0; i < 2; i++ {
 			w.accts = append(w.accts, rhp3.Account(verifKey(rng).PublicKey()))
 			w.accts4 = append(w.accts4, proto4.Account(verifKey(rng).PublicKey()))
+			if w.shared {
+				w.accts4[i] = proto4.Account(w.accts[i])
+			}
 		}
 		w.n = verifOpenNode(t, dir, w.hostKey, cm, true, 3)
 		w.noFaults = id < verifC18Directed
@@ -1517,6 +1656,7 @@ func TestVerifC18(t *testing.T) {
 				"directed: volume data file missing at one start, back at the next (clean stops)",
 				"directed: volume data files missing at a start (abrupt stops, two volumes)",
 				"directed: every write path with an in-memory copy, each followed at once by a restart",
+				"directed: one account key used through RHP3 (credit, budgets) and RHP4 (credits, debits), observed and restarted while no budget is open",
 			}[id]
 		}
 		em.BeginCase(id, desc)
@@ -1680,6 +1820,64 @@ func TestVerifC18(t *testing.T) {
 				after(func() { w.mine(3) })
 				after(func() { w.reviseC(c, verifRevPlan{"append", 2}) })
 				after(func() { w.form(true, w.height()+30) })
+			case 9:
+				// directed: the account manager must not keep an account in memory once its last
+				// budget is closed — RHP4 writes the same row behind its back
+				w.form(false, w.height()+60)
+				w.form(true, w.height()+60)
+				w.creditTo(0)
+				w.creditTo(1)
+				openB := func(ai int, amt uint64) int {
+					b, err := w.n.accounts.Budget(w.accts[ai], types.NewCurrency64(amt))
+					id := w.nextBud
+					w.nextBud++
+					if err == nil {
+						w.budgets[id], w.budgetAcct[id] = b, ai
+					}
+					w.step(fmt.Sprintf("OpenBudget %d%%N %d%%N %d%%N", id, ai, amt), "ODone "+coqBool(err == nil))
+					return id
+				}
+				commitB := func(id int, spend uint64) {
+					b := w.budgets[id]
+					if b == nil {
+						return
+					}
+					b.Spend(accounts.Usage{RPCRevenue: types.NewCurrency64(spend)})
+					err := b.Commit()
+					if err != nil {
+						b.Rollback()
+					}
+					w.step(fmt.Sprintf("CommitBudget %d%%N %d%%N", id, spend), "ODone "+coqBool(err == nil))
+					delete(w.budgets, id)
+					delete(w.budgetAcct, id)
+				}
+				for ai := range w.accts {
+					// a budget is committed, then RHP4 debits and credits the same key
+					commitB(openB(ai, 300), 100)
+					w.debit4(ai)
+					w.observe()
+					w.credit4(ai)
+					w.observe()
+					w.restart(false)
+					w.observe()
+					// two budgets of one account, committed one after the other; a rolled back one
+					b1, b2 := openB(ai, 200), openB(ai, 100)
+					commitB(b1, 50)
+					commitB(b2, 100)
+					w.credit4(ai)
+					w.observe()
+					b3 := openB(ai, 150)
+					w.budgets[b3].Rollback()
+					w.step(fmt.Sprintf("RollbackBudget %d%%N", b3), "ODone true")
+					delete(w.budgets, b3)
+					delete(w.budgetAcct, b3)
+					w.debit4(ai)
+					w.observe()
+					w.creditTo(ai)
+					w.observe()
+					w.restart(ai == 1)
+					w.observe()
+				}
 			default:
 				// every generated history has contracts of both versions with roots, a funded
 				// account and a hook to begin with
@@ -1723,9 +1921,13 @@ func TestVerifC18(t *testing.T) {
 						w.pinUpdate(w.rng.Intn(2) == 0)
 					case k < 66:
 						w.credit()
-					case k < 74:
+					case k < 73:
 						w.budgetOp()
-					case k < 77:
+					case k < 76:
+						if ai, ok := w.idleAcct4(); ok {
+							w.rhp4Op(ai)
+						}
+					case k < 78:
 						w.regPut()
 					case k < 80:
 						w.setReadOnly()
